@@ -175,13 +175,85 @@ def run_evaluator_scenario(scn):
     return obs
 
 
-def _make_search(ev, log_dir, trace, clock):
+def run_evaluator_realtime(scn):
+    """op script (timeout / submit / gather ALL / close) on a real thread or process Evaluator, real time"""
+    from deephyper.evaluator import Evaluator
+    from . import vloop
+
+    vloop.uninstall()
+    backend = scn["backend"]
+    _G.update(specs=[tuple(s) for s in scn["specs"]], runlog={}, clock=_time.time, hpo=False, unit=scn["unit"])
+    mk = {"num_workers": scn["W"]}
+    st = None
+    if backend == "thread":
+        st = _log_storage()
+        mk["storage"] = st
+    ev = Evaluator.create(_run_sync, method=backend, method_kwargs=mk)
+    obs = {"ops": [], "error": None, "timeline": []}
+    nsub = 0
+    gathered = []
+    try:
+        for op in scn["ops"]:
+            kind = op["op"]
+            rec = {"op": kind, "now": None}
+            if kind == "timeout":
+                t0 = _time.time()
+                ev.timeout = op["t"]
+                obs["timeline"].append((t0, None if op["t"] is None else t0 + op["t"]))
+                rec["t"] = op["t"]
+            elif kind == "submit":
+                ev.submit([{"x": nsub + i} for i in range(op["k"])])
+                nsub += op["k"]
+                rec["k"] = op["k"]
+            elif kind == "gather":
+                res = ev.gather("ALL") if op["all"] else ev.gather("BATCH", op["size"])
+                gathered += list(res)
+                rec.update(all=op["all"], size=op.get("size", 0), rep=[_jid(j) for j in res], err=None)
+            elif kind == "close":
+                before = len(ev.jobs_done)
+                ev.close()
+                rec.update(new=[_jid(j) for j in ev.jobs_done[before:]], err=None)
+            obs["ops"].append(rec)
+    except Exception as e:
+        obs["error"] = f"{type(e).__name__}: {e}"[:300]
+    obs["results"] = [(_jid(j), j.status.name, j.output) for j in ev.jobs_done]
+    obs["final"] = {_jid(j): j.status.name for j in ev.jobs}
+    obs["slog"] = list(st.slog) if st is not None else None
+    obs["runlog"] = {k: dict(v) for k, v in _G["runlog"].items()}
+    if backend == "process":
+        for j in gathered:  # the run-functions ran in worker processes: their observations come back as metadata
+            md = j.metadata
+            if "t_start" in md:
+                obs["runlog"][_jid(j)] = {"start": float(md["t_start"]), "ret": float(md["t_ret"]),
+                                          "reads": [(0, "CANCELLING" if md.get("saw") else "RUNNING")]}
+    obs["nsub"] = nsub
+    try:
+        ev.close()
+    except Exception:
+        pass
+    if hasattr(ev, "executor"):
+        try:
+            ev.executor.shutdown(wait=False, cancel_futures=True)
+        except Exception:
+            pass
+    return obs
+
+
+def _make_search(ev, log_dir, trace, clock, advance):
     from deephyper.hpo import HpProblem, RandomSearch
 
     problem = HpProblem()
     problem.add_hyperparameter((0.0, 10.0), "x")
 
     class Spy(RandomSearch):
+        ask_delays = []  # environment: how long each ask() of the current call takes (serial: virtual ticks)
+
+        def ask(self, n=1):
+            d = self.ask_delays.pop(0) if self.ask_delays else 0
+            if d:
+                advance(d)
+            return super().ask(n)
+
         def tell(self, results):
             trace.append(("tell", [_jid(j) for j in results], clock()))
             return super().tell(results)
@@ -227,24 +299,31 @@ def run_search_scenario(scn):
             clock = vt.now
             unit = TICK
             run = _run_async
+
+            def advance(d):  # a slow ask(): the virtual clock moves while nothing else happens
+                vt.t += d * TICK
         else:
             vloop.uninstall()
             clock = _time.time
             unit = scn["unit"]
             run = _run_sync
+
+            def advance(d):
+                _time.sleep(d * unit)
         _G.update(specs=[tuple(s) for s in scn["specs"]], runlog={}, clock=clock, hpo=True, unit=unit)
         mk = {"num_workers": scn["W"]}
         if backend != "process":
             st = _log_storage()
             mk["storage"] = st
         ev = Evaluator.create(run, method=backend, method_kwargs=mk)
-        search = _make_search(ev, log_dir, trace, clock)
+        search = _make_search(ev, log_dir, trace, clock, advance)
         nrows = 0
         for c in scn["calls"]:
             del trace[:]
             T0 = clock()
             obs["timeline"].append((T0, None if c.get("t") is None else T0 + c["t"] * (TICK if serial else 1.0)))
             rec = {}
+            search.ask_delays = list(c.get("delays") or [])
             try:
                 df = search.search(**call_kwargs(c))
             except RuntimeError as e:
@@ -299,6 +378,8 @@ def run_search_scenario(scn):
 
 def run_scenario(scn):
     if scn["level"] == "evaluator":
+        if scn.get("backend", "serial") != "serial":
+            return run_evaluator_realtime(scn)
         return run_evaluator_scenario(scn)
     return run_search_scenario(scn)
 
@@ -325,7 +406,7 @@ def lean_request(scn, obs, jobfirst=()):
         return {"W": scn["W"], "hpo": False, "specs": specs, "ops": ops}
     for c, rec in zip(scn["calls"], obs["calls"]):
         ops.append({"op": "search", "n": -1 if c.get("n") is None else c["n"], "strict": bool(c.get("strict")),
-                    "timeout": c.get("t"), "reps": rec["reps"], "drain": rec["drain"]})
+                    "timeout": c.get("t"), "reps": rec["reps"], "drain": rec["drain"], "delays": list(c.get("delays") or [])})
     return {"W": scn["W"], "hpo": True, "specs": specs, "ops": ops}
 
 
@@ -354,6 +435,14 @@ def _realtime_class(scn, obs, i, rl):
         return "before", dl_lo, dl_hi
     if rl["start"] <= dl_lo - 0.25 and f >= dl_hi + 0.25:
         return "after", dl_lo, dl_hi
+    # started after the expiry for certain: 0.25 s after the latest possible deadline, or (causally, no margin needed)
+    # after another job of the same deadline had already read CANCELLING and returned
+    if rl["start"] >= dl_hi + 0.25:
+        return "late", dl_lo, dl_hi
+    for j, r2 in obs["runlog"].items():
+        if j != i and "ret" in r2 and t0 <= r2["start"] < t1 and r2["reads"] and r2["reads"][-1][1] == "CANCELLING" \
+                and r2["ret"] <= rl["start"]:
+            return "late", dl_lo, dl_hi
     return "either", dl_lo, dl_hi
 
 
@@ -449,15 +538,26 @@ def oracle(scn, obs):
             continue
         if serial:
             s, c, f = _tick(rl["start"]), _tick(dl), _tick(rl["start"]) + m * p
-            before, after, started_before = f < c, f > c, s < c
+            # "finished before the expiry" = it really returned before (a blocked loop delays a run-function; then its
+            # nominal end says nothing); "running at the expiry" = started before, cannot have ended before
+            before, after, started_before = ("ret" in rl and _tick(rl["ret"]) < c and f < c), f > c, s < c
+            late, polls_again = s > c, m >= 1 and p >= 1
             info.update(start=s, deadline=c, natural_finish=f)
         else:
             cl, dl_lo, dl_hi = _realtime_class(scn, obs, i, rl)
             before, after, started_before = cl == "before", cl == "after", True
+            late, polls_again = cl == "late", m * p * scn["unit"] >= 0.5
             z = obs["timeline"][0][0]
             info.update(start=round(rl["start"] - z, 3), ret=round(rl.get("ret", 0) - z, 3), deadline_lo=round(dl_lo - z, 3),
                         deadline_hi=round(dl_hi - z, 3), natural_finish=round(rl["start"] + m * p * scn["unit"] - z, 3))
-        if before:
+        if late:
+            # started after the expiry: a fortiori running after it -> CANCELLED (through CANCELLING), and it reads
+            # CANCELLING if it reads the status again at all
+            if status != "CANCELLED" or (lg is not None and 3 not in lg):
+                bad.append(("started-after-deadline-not-CANCELLED", entry, info))
+            elif polls_again and not saw:
+                bad.append(("started-after-deadline-never-saw-CANCELLING", entry, info))
+        elif before:
             if status != "DONE" or saw or (lg is not None and 3 in lg):
                 bad.append(("finished-before-deadline-not-DONE", entry, info))
         elif after and started_before:
@@ -488,13 +588,47 @@ def fingerprint(clause, entry, scn):
         ks = [call_kind(c) for c in scn["calls"]]
         opt = f"history={','.join(ks[:-1]) or '-'};call={ks[-1]};backend={scn['backend']}"
     else:
-        opt = "ops=" + ",".join(("gatherALL" if o.get("all") else f"gatherBATCH") if o["op"] == "gather" else o["op"] for o in scn["ops"])
+        names = [("gatherALL" if o.get("all") else "gatherBATCH") if o["op"] == "gather" else o["op"] for o in scn["ops"]]
+        names = [n for k, n in enumerate(names) if k == 0 or names[k - 1] != n]  # repeats collapse
+        opt = "ops=" + ",".join(names)
+        opt += f";jobs>workers={sum(o.get('k', 0) for o in scn['ops']) > scn['W']};backend={scn.get('backend', 'serial')}"
     return f"C14|{clause}|{entry}|{opt}"
 
 
 def shrink(scn, clause, budget=40):
-    if scn["level"] != "search" or scn["backend"] != "serial":
+    if scn.get("backend", "serial") != "serial":
         return scn
+    if scn["level"] == "evaluator":
+        # towards the canonical script: timeout, one submit of all jobs, gather ALL, close; then fewer jobs / workers
+        def fails_e(c):
+            nonlocal budget
+            if budget <= 0:
+                return False
+            budget -= 1
+            return any(cl == clause for cl, _, _ in oracle(c, run_scenario(c)))
+
+        best = scn
+        tos = [o for o in scn["ops"] if o["op"] == "timeout"]
+        K = sum(o.get("k", 0) for o in scn["ops"])
+        if tos and scn["ops"][0]["op"] == "timeout":
+            cand = dict(scn, ops=[tos[0], {"op": "submit", "k": K}, {"op": "gather", "all": True}, {"op": "close"}])
+            if cand["ops"] != scn["ops"] and fails_e(cand):
+                best = cand
+        if [o["op"] for o in best["ops"]] == ["timeout", "submit", "gather", "close"]:
+            changed = True
+            while changed and budget > 0:
+                changed = False
+                k = best["ops"][1]["k"]
+                cands = []
+                if k > 1:
+                    cands.append(dict(best, ops=[best["ops"][0], {"op": "submit", "k": k - 1}] + best["ops"][2:], specs=best["specs"][: k - 1]))
+                if best["W"] > 1:
+                    cands.append(dict(best, W=1))
+                for cand in cands:
+                    if fails_e(cand):
+                        best, changed = cand, True
+                        break
+        return best
 
     def fails(c):
         nonlocal budget
@@ -620,7 +754,41 @@ def gen_search(ck, n):
         c = next((x["t"] for x in calls if x.get("t") is not None), 3)
         specs = _specs_around(rng, 60, c, W)
         specs = [[max(1, m), p] for m, p in specs]  # timeout-only calls need jobs that take time
-        out.append({"level": "search", "backend": "serial", "W": W, "specs": specs, "calls": calls, "src": "search"})
+        src = "search"
+        if rng.random() < 0.35:
+            # a slow ask(): the clock passes the deadline between the time_left test and the next submit, so the
+            # evaluation is started after the expiry
+            # (the serial backend's ask() blocks the event loop: the model covers a slow ask only while nothing is
+            # in flight, i.e. any ask with one worker, the first ask of a call otherwise)
+            for x in calls:
+                if x.get("t") is not None:
+                    if W == 1:
+                        x["delays"] = [rng.choice([0, 0, 1]) for _ in range(rng.randint(0, 2))] + [rng.randint(1, x["t"] + 1)]
+                    else:
+                        x["delays"] = [rng.randint(x["t"] - 1, x["t"] + 2)]
+                    src = "search:slow-ask"
+        out.append({"level": "search", "backend": "serial", "W": W, "specs": specs, "calls": calls, "src": src})
+    return out
+
+
+def gen_realtime_evaluator(ck, n, backend):
+    """more jobs than workers under an evaluator timeout, real time: one job finishes before the expiry, others are
+    running at the expiry, the rest is still queued behind the semaphore at the expiry"""
+    rng = ck.rng
+    out = []
+    unit = 0.05
+    for k in range(n):
+        W = 1 if k % 2 == 0 else 2
+        t = rng.choice([1, 1, 2])
+        K = W + rng.choice([2, 2, 3])
+        durs = [0.5] + [t + 0.75] * (W - 1) + [rng.choice([1.0, 1.5]) if W == 1 else rng.choice([0.75, 1.0]) for _ in range(K - W)]
+        specs = []
+        for d in durs:
+            p = rng.choice([1, 2])
+            specs.append([int(round(d / (p * unit))), p])
+        ops = [{"op": "timeout", "t": t}, {"op": "submit", "k": K}, {"op": "gather", "all": True}, {"op": "close"}]
+        out.append({"level": "evaluator", "backend": backend, "W": W, "specs": specs, "ops": ops, "unit": unit,
+                    "src": f"evaluator:{backend}:queued-at-expiry"})
     return out
 
 
@@ -739,6 +907,7 @@ def _case_of(scn, obs=None):
 def _check_one(ck, scn, obs, drv, do_shrink=True):
     case = _case_of(scn, obs)
     nontrivial = bool(obs.get("runlog")) and (scn["level"] == "search" or any(o["op"] == "timeout" for o in scn["ops"]))
+    scn.setdefault("backend", "serial")
     ck.case(case, nontrivial=nontrivial)
     ck.count("src:" + scn["src"])
     ck.count(f"W={scn['W']}")
@@ -791,7 +960,11 @@ def _check_one(ck, scn, obs, drv, do_shrink=True):
     else:
         # per-job replay of the status machine for the jobs whose clause is certain (see _realtime_class)
         reqs, metas = [], []
-        rows = {r["id"]: r for r in (obs["calls"][-1]["rows"] if obs["calls"] else [])}
+        if scn["level"] == "search":
+            rows = {r["id"]: r for r in (obs["calls"][-1]["rows"] if obs["calls"] else [])}
+        else:
+            closed = {i for rec in obs["ops"] if rec["op"] == "close" for i in rec["new"]}
+            rows = {i: {"status": st_} for (i, st_, _) in obs["results"] if i not in closed}
         for i, rl in sorted(obs["runlog"].items()):
             if i not in rows or i >= len(scn["specs"]):
                 continue
@@ -805,9 +978,14 @@ def _check_one(ck, scn, obs, drv, do_shrink=True):
                 spec, armed = [1, 1, False, i], None
             elif cl == "before":
                 spec, armed = [1, max(1, q(rl["ret"])), False, i], q(dl_lo) + 1
-            else:
+            elif cl == "after":
                 spec, armed = [1, q(dl_hi) + 4, False, i], q(dl_hi)
-            reqs.append({"W": 1, "hpo": True, "specs": [spec], "ops": [{"op": "jobonly", "start": 0, "armed": armed}]})
+            else:  # late: acquired its worker after the deadline (C14_cancelled_after_deadline)
+                spec, armed = [1, 4, False, i], -1
+            start = 0
+            if armed == -1:
+                start, armed = 5, 1
+            reqs.append({"W": 1, "hpo": True, "specs": [spec], "ops": [{"op": "jobonly", "start": start, "armed": armed}]})
             metas.append((i, rows[i], cl))
         for (i, row, cl), req, rep in zip(metas, reqs, drv.ask_all(reqs)):
             mj = rep["jobs"][0]
@@ -858,9 +1036,9 @@ def run(ck):
     from . import vloop
 
     serial = _corpus() + gen_evaluator(ck, ck.pick(260, 4000)) + gen_search(ck, ck.pick(120, 1500))
-    real = gen_realtime(ck, ck.pick(5, 24), "thread")
+    real = gen_realtime(ck, ck.pick(5, 24), "thread") + gen_realtime_evaluator(ck, ck.pick(4, 16), "thread")
     if ck.thorough:
-        real += gen_realtime(ck, 8, "process")
+        real += gen_realtime(ck, 8, "process") + gen_realtime_evaluator(ck, 6, "process")
     if ck.thorough:
         import concurrent.futures as cf
 
